@@ -51,6 +51,9 @@ def gen_case(rng, i, tier):
     if kind < 0.5:
         n = rng.choice([0, 1, 2, 3, 5, 8, 20]) if not many else rng.choice([500, 3000])
         cs = [gen_entry(rng, big and j == 0) for j in range(n)]
+        if rng.random() < 0.2:
+            # lists made mostly of empty entries (an empty entry is a bare zero length word in the header)
+            cs = [b"" if rng.random() < 0.85 else gen_entry(rng, False)[:rng.choice([1, 3, 40])] for _ in range(rng.choice([2, 3, 7, 30, n + 2]))]
         lines.append("roundtrip " + " ".join(vlib.hexs(c) for c in cs) if cs else "roundtrip")
         meta = {"kind": "roundtrip", "cs": cs}
     elif kind < 0.65:
